@@ -49,6 +49,22 @@ def _mk() -> List[Entry]:
     add("rubikscube-2", "RubiksCube", lambda time_limit=7, **k: E.RubiksCube(generator=RCGen(cube_size=2, num_scrambles_on_reset=3), time_limit=time_limit, **k), time_limit=7)
     add("slidingtile-3", "SlidingTilePuzzle", lambda time_limit=15, **k: E.SlidingTilePuzzle(generator=STGen(grid_size=3, num_random_moves=20), time_limit=time_limit, **k), time_limit=15)
     add("sudoku-default", "Sudoku", lambda **k: E.Sudoku(**k))
+    def _sudoku_shared_db(**k):
+        # a database the CALLER holds (one writable NumPy array shared by every instance built from this entry): constructing or
+        # resetting an environment must not change it, and a second instance built from it must behave like the first
+        import os
+
+        import numpy as np
+        import jumanji.environments.logic.sudoku as pkg
+        from jumanji.environments.logic.sudoku.data import DATABASES
+        from jumanji.environments.logic.sudoku.generator import DatabaseGenerator
+
+        if "sudoku_db" not in SHARED_ARGS:
+            arr = np.array(np.load(os.path.join(os.path.dirname(os.path.abspath(pkg.__file__)), "data", DATABASES["very-easy"]))[:48])
+            SHARED_ARGS["sudoku_db"] = (arr, arr.copy())
+        return E.Sudoku(generator=DatabaseGenerator(database=SHARED_ARGS["sudoku_db"][0]), **k)
+
+    add("sudoku-shared-db", "Sudoku", _sudoku_shared_db, shared_args=True)
     add("binpack-toy", "BinPack", lambda **k: E.BinPack(generator=BPToy(), obs_num_ems=10, **k), constant_generator=True)
     def _binpack_csv(**k):
         # CSVGenerator over an instance written by the library's own save_instance_to_csv (kept under /verif/.cache, not /tmp)
@@ -91,6 +107,17 @@ def _mk() -> List[Entry]:
     add("sokoban-toy", "Sokoban", lambda time_limit=6, **k: E.Sokoban(generator=SKToy(), time_limit=time_limit, **k), time_limit=6, constant_generator=True)
     add("tsp-6", "TSP", lambda **k: E.TSP(generator=TSGen(num_cities=6), **k))
     return out
+
+
+# constructor arguments held by the caller and shared between instances: name -> (the object handed to the constructors, a private copy)
+SHARED_ARGS: Dict[str, Any] = {}
+
+
+def shared_args_modified() -> List[str]:
+    """names of the shared constructor arguments whose contents no longer equal the private copy taken when they were created"""
+    import numpy as np
+
+    return [k for k, (obj, snap) in SHARED_ARGS.items() if not (np.asarray(obj).dtype == snap.dtype and np.array_equal(np.asarray(obj), snap))]
 
 
 def siblings() -> List[Entry]:
